@@ -207,3 +207,11 @@ func VerifHarness_C18_PercentileGrid() {
 	verifAssert(h.Count() == int64(n), "C18: a histogram reports exactly as many observations as were made")
 	verifReach("observed")
 }
+
+// "sequentially and from concurrent goroutines": the accounting above is decided for one
+// goroutine; for schedules the same lock-discipline obligations as C11 are discharged here
+// (every registry access inside the collector's lock, a re-acquired lock re-validates what it
+// read before, counters touched only through sync/atomic, histogram fields only under its mutex)
+func VerifHarness_C18_CollectorLocks() { VerifHarness_C11_Collector() }
+func VerifHarness_C18_CounterAtomic()  { VerifHarness_C11_Counter() }
+func VerifHarness_C18_HistogramLocks() { VerifHarness_C11_Histogram() }
